@@ -17,6 +17,11 @@ impl HasKey<Public> for V3 {
     type Key = PublicKey;
 
     fn decode(bytes: &[u8]) -> Result<PublicKey, PasetoError> {
+        // k3.public is the 49-byte compressed point only: no uncompressed, hybrid,
+        // compact or identity encodings.
+        if bytes.len() != 49 || !matches!(bytes[0], 0x02 | 0x03) {
+            return Err(PasetoError::InvalidKey);
+        }
         p384::ecdsa::VerifyingKey::from_sec1_bytes(bytes)
             .map(PublicKey)
             .map_err(|_| PasetoError::InvalidKey)
